@@ -6,6 +6,7 @@ mod wire;
 mod c01;
 mod c03;
 mod c05;
+mod ctx;
 mod c06;
 mod c10;
 
@@ -65,6 +66,7 @@ fn main() {
     if argv.len() < 2 { eprintln!("usage: sfv_harness <component> --seed N --tier quick|thorough --out DIR [--replay FILE]"); std::process::exit(2); }
     let comp = argv[1].clone();
     if comp == "c03-child" { std::panic::set_hook(Box::new(|_| {})); c03::child_main(); return; }
+    if comp == "ctx-child" { std::panic::set_hook(Box::new(|_| {})); ctx::child_main(); return; }
     if comp == "c05-child" { std::panic::set_hook(Box::new(|_| {})); c05::child_main(); return; }
     if comp == "reader-child" { std::panic::set_hook(Box::new(|_| {})); c01::child_main(); return; }
     let mut a = Args { seed: 1, tier: "quick".into(), out: ".".into(), replay: None, n: None, corpus: None };
@@ -94,6 +96,9 @@ fn main() {
         "c02" => c03::run(&a, &mut out, true),
         "c03" => c03::run(&a, &mut out, false),
         "c05" => c05::run(&a, &mut out),
+        "c12" => ctx::run(&a, &mut out, "c12"),
+        "c13" => ctx::run(&a, &mut out, "c13"),
+        "c14" => ctx::run(&a, &mut out, "c14"),
         "c06" => c06::run(&a, &mut out),
         "c10" => c10::run(&a, &mut out),
         x => { eprintln!("unknown component {}", x); std::process::exit(2); }
